@@ -68,6 +68,11 @@ func (h *huffmanOnly) encodeBlock(final bool, flush bool) error {
 		return err
 	}
 
+	if h.offset == 0 {
+		// nothing pending: a block without data would also lack its end-of-block code
+		return nil
+	}
+
 	bytesFreq(&h.hist, h.buffer[:h.offset])
 	h.hist.reduceCounts()
 	h.hist.literalCodes[256] = 1
